@@ -83,16 +83,22 @@ func findCountedLoop(h *ssa.BasicBlock) (*loopShape, string) {
 	default:
 		return nil, "loop condition operand is not an induction variable"
 	}
-	if phi.Block() != h || len(phi.Edges) != 2 {
+	if phi.Block() != h || len(phi.Edges) < 2 {
 		return nil, "induction phi is not in the loop header"
 	}
 	ls.phi = phi
-	// which edge is the back edge: pred dominated by header
+	// back edges (there can be several when the body uses `continue`) must all carry the same value
 	var initV, backV ssa.Value
 	for k, pred := range h.Preds {
 		if h.Dominates(pred) {
+			if backV != nil && backV != phi.Edges[k] {
+				return nil, "back edges carry different induction values"
+			}
 			backV = phi.Edges[k]
 		} else {
+			if initV != nil && initV != phi.Edges[k] {
+				return nil, "several loop entries"
+			}
 			initV = phi.Edges[k]
 		}
 	}
